@@ -24,37 +24,54 @@ TOL = Tol(1e-9, 1e-10, scale="line")
 # fault injection
 
 class Faulty:
-    """context manager: EigenValueSolver.solve raises SMRTError at (layer, m, coherent_only)"""
-    def __init__(self, site):
-        self.site = site
+    """context manager: EigenValueSolver.solve raises SMRTError at (layer, m, coherent_only); or, with lapack=(fn, k), the k-th call
+    of scipy.linalg.<fn> (eig | schur) made by the run raises LinAlgError - `hit` then holds the (layer, m, coherent_only) being solved"""
+    def __init__(self, site, lapack=None):
+        self.site, self.lapack, self.hit, self.calls = site, lapack, None, {"eig": 0, "schur": 0}
 
     def __enter__(self):
         from smrt.rtsolver import dort as D
         from smrt.core.error import SMRTError
-        self.D = D
+        import scipy.linalg
+        self.D, self.sl = D, scipy.linalg
         self.orig_init, self.orig_solve = D.EigenValueSolver.__init__, D.EigenValueSolver.solve
+        self.orig_fn = {"eig": scipy.linalg.eig, "schur": scipy.linalg.schur}
         counter = {"n": 0}
-        site = self.site
+        site, me = self.site, self
         orig_init, orig_solve = self.orig_init, self.orig_solve
+        current = {"site": None}
 
         def init(this, *a, **k):
             this._verif_layer = counter["n"]; counter["n"] += 1
             orig_init(this, *a, **k)
 
         def solve(this, m, compute_coherent_only, debug_A=False):
+            current["site"] = (this._verif_layer, m, bool(compute_coherent_only))
             out = orig_solve(this, m, compute_coherent_only, debug_A)
             if site is not None and (this._verif_layer, m, bool(compute_coherent_only)) == tuple(site):
                 # fail where the real solver fails: at the end (validate_eigen), after the normalisation state has been set
                 raise SMRTError("injected eigen-solver failure")
             return out
+
+        def wrap(name):
+            orig = self.orig_fn[name]
+            def f(*a, **k):
+                n = me.calls[name]; me.calls[name] += 1
+                if me.lapack is not None and me.lapack[0] == name and me.lapack[1] == n:
+                    me.hit = current["site"]
+                    raise scipy.linalg.LinAlgError("injected LAPACK failure")
+                return orig(*a, **k)
+            return f
         D.EigenValueSolver.__init__, D.EigenValueSolver.solve = init, solve
+        scipy.linalg.eig, scipy.linalg.schur = wrap("eig"), wrap("schur")
         return self
 
     def __exit__(self, *a):
         self.D.EigenValueSolver.__init__, self.D.EigenValueSolver.solve = self.orig_init, self.orig_solve
+        self.sl.eig, self.sl.schur = self.orig_fn["eig"], self.orig_fn["schur"]
 
 
-def run_scene(sc, active, handling, mmax, site, method="eig", extra=None):
+def run_scene(sc, active, handling, mmax, site, method="eig", extra=None, lapack=None, info=None):
     from smrt import make_model, sensor_list
     from smrt.core.error import SMRTError
     sp, atm = scenes.build(sc)
@@ -62,13 +79,16 @@ def run_scene(sc, active, handling, mmax, site, method="eig", extra=None):
     opts.update(extra or {})
     m = make_model(sc["emmodel"], "dort", rtsolver_options=opts)
     sensor = sensor_list.active(sc["frequency"], [25., 40.]) if active else sensor_list.passive(sc["frequency"], [25., 40.])
-    with Faulty(site):
+    with Faulty(site, lapack) as f:
         try:
             return m.run(sensor, sp)
         except SMRTError:
             return "raised"
         except Exception as e:  # noqa
             return "foreign:" + type(e).__name__
+        finally:
+            if info is not None:
+                info["hit"], info["calls"] = f.hit, dict(f.calls)
 
 
 def classify(res, active):
@@ -120,6 +140,35 @@ def correspond(ctx):
                 co.add("dort.faults", f"flow {int(active)} {mmax} {L} {handling} {l} {m} {int(coh)}", impl, C.EXACT,
                        desc={"scene": sc, "active": active, "m_max": mmax, "site": site, "handling": handling})
                 co.note(("active" if active else "passive") + " " + handling + (" no-fault" if site is None else ""))
+    # (a') the same flow when the failure is a LAPACK non-convergence (LinAlgError) inside either stage of any diagonalisation method
+    for sc, active, mmax in fault_cases(rng, ctx.n(3, 12)):
+        L = len(sc["thickness"])
+        for method in ("eig", "shur", "shur_forcedtriu"):
+            info = {}
+            normal = run_scene(sc, active, "exception", mmax, None, method, info=info)
+            if isinstance(normal, str):
+                continue
+            for fn in ("eig", "schur"):
+                ks = list(range(info["calls"][fn]))
+                if len(ks) > 6:
+                    ks = sorted({0, len(ks) - 1} | {int(k) for k in rng.choice(ks, 4, replace=False)})
+                for k in ks:
+                    for handling in ("nan", "exception"):
+                        inf2 = {}
+                        res = run_scene(sc, active, handling, mmax, None, method, lapack=(fn, k), info=inf2)
+                        if inf2["hit"] is None:
+                            continue
+                        if isinstance(res, str):
+                            impl = res
+                        else:
+                            same = (res.data.shape == normal.data.shape and
+                                    all(list(res.data.coords[d].values) == list(normal.data.coords[d].values) for d in normal.data.dims))
+                            impl = classify(res, active) if same else "shape-or-coords-differ"
+                        l, m, coh = inf2["hit"]
+                        co.add("dort.lapack-faults", f"flow {int(active)} {mmax} {L} {handling} {l} {m} {int(coh)}", impl, C.EXACT,
+                               desc={"scene": sc, "active": active, "m_max": mmax, "method": method, "lapack": [fn, k], "site": [l, m, coh],
+                                     "handling": handling})
+                        co.note(f"lapack fault in {method}/{fn}")
     # (b) validate_eigen decision logic
     ev = D.EigenValueSolver(None, 0.1, None, np.array([0.9, 0.5, 0.2]), np.array([0.3, 0.3, 0.4]), 0, True, "eig")
     for _ in range(ctx.n(150, 1500)):
@@ -157,9 +206,20 @@ def correspond(ctx):
     made = 0
     while made < ctx.n(10, 60):
         em, ms = pC01.EMMODELS[int(rng.integers(0, 2))]
-        sc = scenes.random_scene(rng, lossless=False, microstructure=ms, max_layers=5, atmosphere=False, thick=(0.2, 20.0))
+        if made % 2 == 0:
+            sc = scenes.random_scene(rng, lossless=False, microstructure=ms, max_layers=5, atmosphere=False, thick=(0.2, 20.0))
+            tau = float(rng.choice([0.5, 1, 2, 4, 6, 10]))
+        else:
+            # many thin, strongly scattering layers (albedo ~ 0.9): the slowest eigenvalue is well below the extinction, and the layer at
+            # which the cumulated depth crosses tau is sensitive to which of the two is accumulated
+            em, ms = "iba", "exponential"
+            sc = scenes.random_scene(rng, nlayer=int(rng.integers(7, 11)), lossless=False, microstructure=ms, atmosphere=False, thick=(0.2, 0.8),
+                                     frequency=float(rng.choice([37e9, 89e9])))
+            k = len(sc["thickness"])
+            sc["micro"]["corr_length"] = [round(float(v), 7) for v in rng.uniform(2.0e-4, 4.0e-4, k)]
+            sc["density"] = [round(float(v), 1) for v in rng.uniform(200, 350, k)]
+            tau = float(rng.choice([2, 4, 6, 8]))
         sc["emmodel"], sc["nmax"] = em, int(rng.integers(8, 11))
-        tau = float(rng.choice([0.5, 1, 2, 4, 6, 10]))
         sp, atm = scenes.build(sc)
         try:
             s = dortlib.prepare_solver(sp, em, sensor_list.passive(sc["frequency"], 40.), n_max_stream=sc["nmax"], prune_deep_snowpack=tau)
@@ -228,6 +288,40 @@ def check_faults(sc, active, mmax):
     return None
 
 
+def check_one_fault(d):
+    """one fault (an injected SMRTError at a site, or a LinAlgError in the k-th LAPACK call): 'exception' must raise SMRTError, 'nan' must
+    give the normal shape filled with NaN.  returns None or (key, what, required, observed)"""
+    sc, active, mmax, handling = d["scene"], d["active"], d["m_max"], d["handling"]
+    method = d.get("method", "eig")
+    lap = tuple(d["lapack"]) if d.get("lapack") else None
+    site = None if lap else tuple(d["site"])
+    normal = run_scene(sc, active, "exception", mmax, None, method)
+    if isinstance(normal, str):
+        return None
+    info = {}
+    r = run_scene(sc, active, handling, mmax, site, method, lapack=lap, info=info)
+    if lap and info.get("hit") is None:
+        return None
+    where = f"{method}/{lap[0]} call {lap[1]} (layer, mode, coherent)={info.get('hit')}" if lap else f"(layer, mode, coherent)={site}"
+    tag = (":lapack:" + method + "/" + lap[0]) if lap else ""
+    if handling == "exception":
+        if r != "raised":
+            return ("fault:exception" + tag, f"solver failure at {where} with error_handling='exception'", "raises SMRTError",
+                    r if isinstance(r, str) else "returned a result")
+        return None
+    if isinstance(r, str):
+        return ("fault:nan-raises" + tag, f"solver failure at {where} with error_handling='nan'", "a NaN-filled result", r)
+    v = np.asarray(r.data.values)
+    if v.shape != np.asarray(normal.data.values).shape:
+        return ("fault:nan-shape" + tag, f"solver failure at {where}", "normal shape", str(v.shape))
+    if not np.isnan(v).all():
+        fin = v[np.isfinite(v)]
+        m = (info.get("hit") or site)[1]
+        return ("fault:nan-finite" + (":mode0-U" if (active and m == 0) else "") + tag, f"solver failure at {where}", "every entry NaN",
+                f"{fin.size} finite entries, e.g. {fin[:3].tolist()}")
+    return None
+
+
 def check_methods(sc, active):
     a = run_scene(sc, active, "exception", 2, None, "eig")
     b = run_scene(sc, active, "exception", 2, None, "shur")
@@ -278,6 +372,29 @@ def oracle(ctx, hints, effort):
     findings, evals = {}, 0
     def add(key, what, inp, obs, req):
         findings.setdefault(key, Finding(key, what, inp, obs, req))
+    # disagreeing fault cases of the correspondence: decide the property itself on them
+    for h in hints[:200]:
+        d = h.get("desc")
+        if h.get("slice") in ("dort.faults", "dort.lapack-faults") and isinstance(d, dict) and d.get("site") is not None:
+            evals += 1
+            r = check_one_fault(d)
+            if r:
+                add(r[0], r[1], dict(d, kind="one-fault"), r[3], r[2])
+    # LAPACK-level failures in every method (one scene in the routine tier)
+    for sc, active, mmax in fault_cases(rng, 1 if effort == "routine" else 6):
+        for method in ("eig", "shur", "shur_forcedtriu"):
+            info = {}
+            if isinstance(run_scene(sc, active, "exception", mmax, None, method, info=info), str):
+                continue
+            for fn in ("eig", "schur"):
+                n = info["calls"][fn]
+                for k in sorted({0, n - 1, n // 2}) if n else []:
+                    for handling in ("nan", "exception"):
+                        evals += 1
+                        d = {"scene": sc, "active": active, "m_max": mmax, "method": method, "lapack": [fn, k], "handling": handling, "site": "lapack"}
+                        r = check_one_fault(d)
+                        if r:
+                            add(r[0], r[1], dict(d, kind="one-fault"), r[3], r[2])
     for sc, active, mmax in fault_cases(rng, 2 if effort == "routine" else 12):
         evals += 1
         r = check_faults(sc, active, mmax)
@@ -314,6 +431,9 @@ def replay(inp, rp=None):
     if k == "faults":
         r = check_faults(inp["scene"], inp["active"], inp["m_max"])
         return Finding("?", str(r), inp, r[3], r[2]) if r else None
+    if k == "one-fault":
+        r = check_one_fault(inp)
+        return Finding("?", r[1], inp, r[3], r[2]) if r else None
     if k == "methods":
         r = check_methods(inp["scene"], inp["active"])
     elif k == "prune":
